@@ -115,7 +115,10 @@ fn diff_namespaces(a: &MemStorage, b: &MemStorage) -> Vec<String> {
 }
 
 pub fn check_mig_case(c: &MigCase, agg: &mut Agg) -> Result<(), String> {
-    let mut e = Engine::new(&c.case.setup)?;
+    let mut e = match Engine::try_new(&c.case.setup)? {
+        Some(e) => e,
+        None => return Ok(()),
+    };
     for op in &c.case.ops {
         if e.viol.is_some() {
             break;
